@@ -148,9 +148,15 @@ def _e_trunc_int(x):
     return int(x)
 
 
+def _isfp(x):
+    from .fp import SymFP
+
+    return isinstance(x, SymFP)
+
+
 def _e_float(x):
     if isinstance(x, Sym):
-        if isinstance(x, SymReal):
+        if isinstance(x, SymReal) or _isfp(x):
             return x
         return SymReal(rterm(x))
     return float(x)
@@ -191,6 +197,10 @@ def _ite(c, a, b):
 
 
 def _e_max(x, y):
+    if _isfp(x) or _isfp(y):
+        from .fp import SymFP, fpval
+
+        return SymFP(z3.If(z3.fpGEQ(fpval(x), fpval(y)), fpval(x), fpval(y)))
     if isinstance(x, Sym) or isinstance(y, Sym):
         tx, ty = _arith(x, y)
         return wrap(z3.If(tx >= ty, tx, ty))
@@ -198,6 +208,10 @@ def _e_max(x, y):
 
 
 def _e_min(x, y):
+    if _isfp(x) or _isfp(y):
+        from .fp import SymFP, fpval
+
+        return SymFP(z3.If(z3.fpLEQ(fpval(x), fpval(y)), fpval(x), fpval(y)))
     if isinstance(x, Sym) or isinstance(y, Sym):
         tx, ty = _arith(x, y)
         return wrap(z3.If(tx <= ty, tx, ty))
@@ -263,7 +277,7 @@ def sx_isinstance(x, T):
         elif isinstance(x, SymInt):
             if any(t in (int, _np.integer, _np.int64, _np.int32, numbers.Integral, numbers.Real, numbers.Number, _np.number) for t in flat):
                 return True
-        elif isinstance(x, SymReal):
+        elif isinstance(x, SymReal) or _isfp(x):
             if any(t in (float, _np.floating, _np.float64, _np.float32, numbers.Real, numbers.Number, _np.number) for t in flat):
                 return True
         return isinstance(x, T)
